@@ -41,7 +41,14 @@ python3 - "$P" "$NAME" "$D" <<'PY'
 import json,sys,os
 P,NAME,D=sys.argv[1:4]
 rd=lambda f: open(os.path.join(D,f)).read().strip()
-meta={"property":P,"name":NAME,"demo_on_clean_tree":rd(".clean"),"existing_suite_with_patch":rd(".suite"),"demo_with_patch":rd(".seeded"),
+hist=[]
+mp=os.path.join(D,"meta.json")
+if os.path.exists(mp):
+    try:
+        old=json.load(open(mp)); hist=old.get("detection_history",[])
+        if old.get("checks_run"): hist.append({"checks_run":old["checks_run"],"note":old.get("note","earlier run (before the checks were strengthened)")})
+    except Exception: pass
+meta={"detection_history":hist,"property":P,"name":NAME,"demo_on_clean_tree":rd(".clean"),"existing_suite_with_patch":rd(".suite"),"demo_with_patch":rd(".seeded"),
  "checks_run":json.loads(rd(".res")),"what_it_needs":open(os.path.join(D,"NOTES.md")).read() if os.path.exists(os.path.join(D,"NOTES.md")) else ""}
 json.dump(meta,open(os.path.join(D,"meta.json"),"w"),indent=1)
 for f in (".clean",".suite",".seeded",".res"): os.remove(os.path.join(D,f))
